@@ -44,11 +44,16 @@ def fieldOf (fs : List String) (key : String) : Option String :=
 /-- The observation the harness prints for an archive (same accessors, same order). -/
 def observe (c : Codec) (b : BinArchive) (cCells : List Nat) : String :=
   let size := b.size
-  let addrs := (List.range size).filter (fun a => a + 4 ≤ size)
-  let s := addrs.filterMap (fun a => match readString b a with
-    | .ok (some t) => some (a, t) | _ => none)
-  let p := addrs.filterMap (fun a => match readPointer b a with
-    | .ok (some t) => some (a, t) | _ => none)
+  -- small archives: every address through the accessors, like the harness; large ones (the accessors
+  -- recompute the size, which is quadratic on lists): the annotated cells, which is what the scan returns
+  let viaAccessors := size ≤ 4096
+  let addrs := if viaAccessors then (List.range size).filter (fun a => a + 4 ≤ size) else []
+  let s := if viaAccessors then addrs.filterMap (fun a => match readString b a with
+      | .ok (some t) => some (a, t) | _ => none)
+    else (b.text.filter (fun p => p.1 + 4 ≤ size)).mergeSort byAddr
+  let p := if viaAccessors then addrs.filterMap (fun a => match readPointer b a with
+      | .ok (some t) => some (a, t) | _ => none)
+    else (b.pointers.filter (fun p => p.1 + 4 ≤ size)).mergeSort byAddr
   let cs := cCells.map (fun a => match readCString c b a with
     | .ok (some t) => s!"{a}:{hexOfBytes t}"
     | .ok none => s!"{a}:none"
@@ -104,10 +109,13 @@ def modelImg (raw : Bool) (e : Endian) (img : Bytes) : String :=
 def expectedLabels (K : Content) : String :=
   fmtStrings ((K.labels.mergeSort byAddr).flatMap (fun p => p.2.map (fun n => (p.1, n))))
 
-/-- Same bytes outside annotated cells. -/
-def dataAgrees (K : Content) (d : Bytes) : Bool :=
-  d.length == K.data.length &&
-  (List.range K.data.length).all (fun i => decide (K.covered i) || d[i]? == K.data[i]?)
+/-- Same bytes outside annotated cells (one pass over both lists). -/
+def agreeFrom (K : Content) : Nat → Bytes → Bytes → Bool
+  | _, [], [] => true
+  | i, x :: xs, y :: ys => (x == y || decide (K.covered i)) && agreeFrom K (i + 1) xs ys
+  | _, _, _ => false
+
+def dataAgrees (K : Content) (d : Bytes) : Bool := agreeFrom K 0 d K.data
 
 /-- Judgement of the re-parsed observation against the content `K` (c-string cells listed). -/
 def judgeObservation (K : Content) (cexp : List (Nat × Bytes)) (impl : List String) : Option String :=
@@ -209,6 +217,127 @@ def oracleImg (e : Endian) (img : Bytes) (K : Content) (impl : List String) : St
         "FAIL re-serialized image is not the canonical image of the content"
       else "ok"
 
+/-! ### structured large contents (`big`): closed-form reference
+
+The list-based model and `canonical` are quadratic; for archives with more than 2^16 entries the
+driver uses a closed form of `canonical` for the structured family the harness builds (`np`
+pointer cells, `ns` string cells over `m` distinct strings, `nl` ascending single-name labels).
+On small instances the closed form is compared with the general `canonical` and with the model
+(`FAIL closed form …` would be a driver bug), which ties it to the specification. -/
+
+def bigSName (j : Nat) : Bytes :=
+  [0x73, UInt8.ofNat (97 + j % 26), UInt8.ofNat (97 + j / 26 % 26), UInt8.ofNat (97 + j / 676 % 26),
+   UInt8.ofNat (97 + j / 17576 % 26)]
+
+def bigLName (t : Nat) : Bytes :=
+  [0x4C, UInt8.ofNat (97 + t / 456976 % 26), UInt8.ofNat (97 + t / 17576 % 26),
+   UInt8.ofNat (97 + t / 676 % 26), UInt8.ofNat (97 + t / 26 % 26), UInt8.ofNat (97 + t % 26)]
+
+def pushHexByte (s : String) (b : Nat) : String :=
+  (s.push (hexDigit (b / 16 % 16))).push (hexDigit (b % 16))
+
+def pushHexWord (e : Endian) (s : String) (v : Nat) : String :=
+  match e with
+  | .little => pushHexByte (pushHexByte (pushHexByte (pushHexByte s (v % 256)) (v / 256 % 256))
+      (v / 65536 % 256)) (v / 16777216 % 256)
+  | .big => pushHexByte (pushHexByte (pushHexByte (pushHexByte s (v / 16777216 % 256))
+      (v / 65536 % 256)) (v / 256 % 256)) (v % 256)
+
+def pushHexBytes (s : String) (l : Bytes) : String := l.foldl (fun s b => pushHexByte s b.toNat) s
+
+def fnv64 (s : String) : UInt64 :=
+  s.toUTF8.foldl (fun h b => (h ^^^ b.toUInt64) * 0x100000001b3) 0xcbf29ce484222325
+
+def hex64 (v : UInt64) : String := Id.run do
+  let mut s := ""
+  for i in [0:16] do
+    s := s.push (hexDigit ((v.toNat / 16 ^ (15 - i)) % 16))
+  return s
+
+structure BigRef where
+  img : String
+  obs : String
+
+def bigRef (e : Endian) (np ns m nl : Nat) : BigRef := Id.run do
+  let size := 4 * (np + ns) + 2
+  let nptr := np + ns
+  let textStart := size + 4 * nptr + 8 * nl
+  let d := min m ns
+  let total := 0x20 + textStart + 7 * nl + 6 * d
+  -- data block (every cell annotated, two raw tail bytes)
+  let mut dat := ""
+  for k in [0:np] do dat := pushHexWord e dat (size - 4 * k)
+  for i in [0:ns] do dat := pushHexWord e dat (textStart + 7 * nl + 6 * (i % m))
+  dat := pushHexByte dat (((size - 2) * 7 + 3) % 256)
+  dat := pushHexByte dat (((size - 1) * 7 + 3) % 256)
+  let mut s := ""
+  s := pushHexWord e s total
+  s := pushHexWord e s size
+  s := pushHexWord e s nptr
+  s := pushHexWord e s nl
+  for _ in [0:16] do s := pushHexByte s 0
+  s := s ++ dat
+  -- pointer table: pointer cells ascending, then string cells grouped by string in first-use order
+  for k in [0:np] do s := pushHexWord e s (4 * k)
+  for j in [0:d] do
+    for r in [0:(ns - j + m - 1) / m] do s := pushHexWord e s (4 * (np + (j + r * m)))
+  -- label table and text section
+  for t in [0:nl] do
+    s := pushHexWord e s t
+    s := pushHexWord e s (7 * t)
+  for t in [0:nl] do s := pushHexByte (pushHexBytes s (bigLName t)) 0
+  for j in [0:d] do s := pushHexByte (pushHexBytes s (bigSName j)) 0
+  -- the observation the harness prints for the re-parsed archive
+  let mut o := s!"size={size} data={dat} S="
+  if ns = 0 then o := o ++ "~"
+  for i in [0:ns] do
+    o := (if i = 0 then o else o.push ',') ++ toString (4 * (np + i)) ++ ":"
+    o := pushHexBytes o (bigSName (i % m))
+  o := o ++ " P="
+  if np = 0 then o := o ++ "~"
+  for k in [0:np] do
+    o := (if k = 0 then o else o.push ',') ++ toString (4 * k) ++ ":" ++ toString (size - 4 * k)
+  o := o ++ " CS=~ L="
+  if nl = 0 then o := o ++ "~"
+  for t in [0:nl] do
+    o := (if t = 0 then o else o.push ',') ++ toString t ++ ":"
+    o := pushHexBytes o (bigLName t)
+  return ⟨s, o⟩
+
+/-- The same content as explicit lists (small instances only). -/
+def bigContent (np ns m nl : Nat) : Content :=
+  let size := 4 * (np + ns) + 2
+  ⟨(List.range size).map (fun i => UInt8.ofNat ((i * 7 + 3) % 256)),
+   (List.range ns).map (fun i => (4 * (np + i), bigSName (i % m))),
+   (List.range np).map (fun k => (4 * k, size - 4 * k)),
+   (List.range nl).map (fun t => (t, [bigLName t]))⟩
+
+def stepBig (e : Endian) (np ns m nl : Nat) (impl : List String) : String × String :=
+  if m = 0 ∨ nl > 4 * (np + ns) + 3 then ("bad-case", "FAIL bad-case") else
+  let r := bigRef e np ns m nl
+  let model := s!"ok img={r.img} det=1 re=1 obs={hex64 (fnv64 r.obs)}"
+  -- small instances: the closed form must be the specification's canonical image and the model's image
+  let selfCheck : Option String :=
+    if np + ns + nl ≤ 60 then
+      let K := bigContent np ns m nl
+      let a : BinArchive := ⟨K.data, K.strings.reverse, K.pointers, K.labels.reverse, [], e⟩
+      if hexOfBytes (canonical enc e K) != r.img then some "FAIL closed form differs from canonical (driver)"
+      else if (serialize sjisSub a).map hexOfBytes != Res.ok r.img then
+        some "FAIL closed form differs from the model (driver)"
+      else none
+    else none
+  let oracle := match selfCheck with
+    | some w => w
+    | none =>
+      if impl.getD 1 "" != "ok" then "FAIL serialize did not succeed on an in-domain archive" else
+      if fieldOf impl "img" != some r.img then
+        "FAIL image is not the canonical image (pointer table not grouped by string in first-use order, or other bytes differ)" else
+      if fieldOf impl "det" != some "1" then "FAIL serialization is not deterministic" else
+      if impl.contains "parse-err" then "FAIL from_bytes rejects the serialized image" else
+      if fieldOf impl "re" != some "1" then "FAIL parse then serialize does not reproduce the image" else
+      if fieldOf impl "obs" != some (hex64 (fnv64 r.obs)) then "FAIL re-parsed content differs" else "ok"
+  (model, oracle)
+
 def faithfulExpected : String := "ok encodable=7520 lossy=a5,203e,2212 nul=0 disjoint=1"
 
 def family : Family where
@@ -242,6 +371,9 @@ def family : Family where
         else if fieldOf i "procs" != some "1" then
           "FAIL serialization differs between fresh processes (per-process hash seeds)"
         else "ok")
+    | [_, "big", e, np, ns, m, nl] =>
+      let r := stepBig (endianOf e) (natOf np) (natOf ns) (natOf m) (natOf nl) i
+      ((), r.1, r.2)
     | [_, "img", e, img, d, s, p, l] =>
       let K : Content := ⟨hexOrBad d, parseStrings s, parsePointers p, parseLabels l⟩
       let img := hexOrBad img
